@@ -19,7 +19,7 @@ PROP = "C05"
 LEVEL = "proof"
 ASSUMPTIONS = [
     "the first state invariant (no failed line in service behind a closed breaker) is PROVED for every reachable state of every well-formed configuration of the manual switching model (C05.isolated_invariant); well-formedness (wfB) and the inductive invariant (invJ) are evaluated by the driver on every configuration extracted from a real system and on every visited state, and the check fails if either is ever false",
-    "PARTIAL: the second state invariant (switch positions agree with line status) is stated in Lean but not proved - it is tested on every state visited by the model and by the implementation in this run",
+    "the second state invariant (an open disconnector / breaker never sits on a line in service) is PROVED as well for every reachable state (C05.switches_agree_invariant, ..._auto), under the additional structural clauses wfB2 (complete disconnector lists, one breaker per breaker line, a section lists all disconnectors of a line it touches), evaluated by the driver on every real configuration like wfB",
     "the automatic (ICT) control loops are modelled for sensors / intelligent switches that are in service (they never fail by themselves in the scenarios; what each controller can reach is read from the real ICT network in every increment and passed to the model) and compared state by state; device failures inside the control loop are exercised by C13 (state machines) and C16 (timing oracle) only",
     "a fault injected through the callback with repair time <= dt is repaired before the first control step (update_fail_status runs between callback and control loop); the 'breaker stays open for the sectioning time' clause is evaluated for faults still present at their first control step",
     "backup lines are outside the switching model (never faulted in these scenarios; closed/opened by island formation, see C04)",
@@ -143,7 +143,7 @@ def run(res):
 
 
 def compare(case, m, i):
-    return [ctl.strip_ok(x) for x in m] == i and all(ctl.model_flags(x)[:2] == "11" and ctl.model_flags(x)[3:5] == "11" for x in m)
+    return [ctl.strip_ok(x) for x in m] == i and all(ctl.model_flags(x)[:2] == "11" and ctl.model_flags(x)[3:6] == "111" for x in m)
 
 
 def search(res):
